@@ -421,7 +421,6 @@ theorem segment_blanks_behave :
     parse_facebook_url "https://www.facebook.com/ / ".toList false = .ok none ∧
     parse_facebook_url "https://www.facebook.com/na sa".toList false = .ok (some (.handle "na sa".toList)) ∧
     charsOk (.handle "na sa".toList) = true ∧ pathFieldsClean (.handle "na sa".toList) = true ∧
-    parse_facebook_url "https://www.facebook.com/na sa".toList false = .ok (some (.handle "na sa".toList)) ∧
     parse_facebook_url "https://www.facebook.com/photo.php?fbid=5 ".toList false
       = .ok (some (.photo "5 ".toList none none none none)) ∧
     charsOk (.photo "5 ".toList none none none none) = true ∧
@@ -490,13 +489,14 @@ example :
   decide +kernel
 
 /-- the hypothesis of `reparse_of_parse_partial` holds for what the parser returns on ordinary
-urls (a post of a page, a photo of an album, a user, an album id containing `a.`), and fails on a
-dot segment -/
+urls (a post of a page, a photo of an album, a user, an album id containing `a.`, a handle with a
+no-break space inside, a query value with blanks around), and fails on a dot segment -/
 example :
     charsOk (.post "1".toList none (some "nasa".toList) none none) = true ∧
     charsOk (.photo "456".toList none none (some "nasa".toList) (some "123".toList)) = true ∧
     charsOk (.photo "456".toList none none (some "nasa".toList) (some "a.a.".toList)) = true ∧
     charsOk (.user "100012345".toList none) = true ∧
+    charsOk (.handle "na\u00a0sa".toList) = true ∧ charsOk (.video " 5\u3000".toList none) = true ∧
     charsOk (.handle "..".toList) = false ∧
     noEmpty (.video "5".toList (some "nasa".toList)) = true ∧ noEmpty (.video [] (some "nasa".toList)) = false := by
   decide +kernel
